@@ -47,9 +47,31 @@
                      generate_clean_unambiguous (a clean verdict implies that the grammar is unambiguous: an
                      ambiguous grammar is never reported conflict-free);
      generate_nonvacuous   a non-trivial instance (corpus grammar nullable_chain_after_nonterminal).
-   Not proved for the model generator: that its clean tables also pass check_sound / check_early (accepted =>
-   derivable, error not early); these stay per-instance checks on lr1.py's tables.  No fuel bound is given for
-   the collection loop (its length is the number of LR(1) states; GenOutOfFuel 2 when the fuel is too small).
+     generate_pass_check_sound / generate_pass_check_early   the tables and item sets of the model generator pass
+                     check_sound (known-suffix certificate scert_of computed from the item sets) and check_early -- for
+                     EVERY grammar, with or without conflicts (each surviving action entry is justified by an item);
+     all_productive_cert / all_productive_sound / all_productive_complete   the productivity fixed point prod_marks
+                     (rank = round in which a nonterminal is marked) yields a certificate check_productive accepts; the
+                     boolean all_productive G is true exactly when every nonterminal derives a terminal string;
+     generate_run_sound, generate_error_not_early, and the combined generate_correct: for a grammar all of whose
+                     nonterminals are productive and a clean verdict, `run` on the generated tables accepts exactly the
+                     sentences, returns their unique derivation tree, and reports an error exactly at the first token
+                     after the longest viable prefix (generate_correct_nonvacuous: a non-trivial instance);
+     generate_fuel_monotone / items_fuel_monotone / generate_fuel_independent   more fuel (FIRST rounds, closure steps,
+                     collection steps) never changes a result that was returned;
+     items_complete_when_some   a returned collection is, up to set equality, exactly the canonical collection
+                     (Gen2.canon: closure of the start item, closed under GOTO), every item set once;
+     gen_clean_iff_lr1   the verdict of the model generator is a property of the grammar alone: clean <-> no item set
+                     of the canonical collection has two items asking for different actions in one cell;
+     generate_verdict_order_independent_partial   hence ANY presentation of the canonical collection (any work-list
+                     order, any order of the items inside a state -- lr1.py iterates Python sets) is filled without
+                     Conflict / Accept clash exactly when the model reports clean.  Partial: the production LIST is the
+                     same on both sides (items carry production indices) and equality of the tables up to state
+                     renaming is not proved.  not_clean_kind_order_dependent_refuted: WHICH kind of "not clean" (Conflict or
+                     Accept clash) is reported does depend on the item order (finding lr1-assert-accept-reduce-clash).
+   Termination of the collection loop is by fuel: no a-priori bound is given (the number of LR(1) item sets is only
+   exponentially bounded); the harness passes the number of states lr1.py built + slack and GenOutOfFuel 2 is a
+   distinct outcome that the correspondence reports as a difference.
    The generator lr1.py itself is covered per instance: harness/props/c08.py applies the verified checkers
    to the tables and item sets lr1.py builds on every run (translation validation, not a proof
    about lr1.py); "conflicts are reported whenever the construction is not
@@ -57,6 +79,7 @@
 From Coq Require Import NArith List.
 Require Import EmbossV.LR.Driver EmbossV.LR.Sound EmbossV.LR.Complete EmbossV.LR.Early EmbossV.LR.Examples.
 Require Import EmbossV.LR.Gen EmbossV.LR.GenCert EmbossV.LR.GenProofs EmbossV.LR.GenProofsItems EmbossV.LR.GenProofsLink EmbossV.LR.GenProofsFuel EmbossV.LR.GenProofsExample.
+Require Import EmbossV.LR.GenCert2 EmbossV.LR.GenProofsColl EmbossV.LR.GenProofsFill EmbossV.LR.GenProofsSound EmbossV.LR.GenProofsEarly EmbossV.LR.GenProofsMono EmbossV.LR.GenProofsExample2 EmbossV.LR.GenExec EmbossV.LR.GenProofsExec.
 Import ListNotations.
 
 Theorem run_sound : forall G T C fuel toks t,
@@ -227,3 +250,111 @@ Theorem generate_nonvacuous :
     (2 <= length (g_states r))%nat /\ derives G (g_start G) t 0%nat toks /\ toks <> [] /\
     run (g_tables r) 100 toks = Accepted t.
 Proof. exact GenProofsExample.generate_nonvacuous. Qed.
+
+(* ---------------------------------------------------------------- the model generator, part 2 *)
+
+Theorem generate_pass_check_sound : forall G eoi sp ff cf sf r,
+  is_nonterminal G eoi = false -> generate G eoi sp ff cf sf = GenOk r ->
+  check_sound G (g_tables r) (scert_of G (g_states r)) = true.
+Proof. exact GenProofsSound.generate_pass_check_sound. Qed.
+
+Theorem generate_pass_check_early : forall G eoi sp ff cf sf r,
+  is_nonterminal G eoi = false -> generate G eoi sp ff cf sf = GenOk r ->
+  check_early G (g_tables r) (icert_of (g_states r)) = true.
+Proof. exact GenProofsEarly.generate_pass_check_early. Qed.
+
+Theorem all_productive_cert : forall G, all_productive G = true -> check_productive G (pcert_of G) = true.
+Proof. exact GenProofsEarly.all_productive_cert. Qed.
+
+Theorem all_productive_sound : forall G, all_productive G = true -> forall X, exists w, Early.gen G X w.
+Proof. exact GenProofsEarly.all_productive_sound. Qed.
+
+Theorem all_productive_complete : forall G,
+  (forall X, is_nonterminal G X = true -> exists w, Early.gen G X w) -> all_productive G = true.
+Proof. exact GenProofsEarly.all_productive_complete. Qed.
+
+Theorem generate_run_sound : forall G eoi sp ff cf sf r fuel toks t,
+  is_nonterminal G eoi = false -> generate G eoi sp ff cf sf = GenOk r ->
+  ~ In eoi toks -> run (g_tables r) fuel toks = Accepted t -> derives G (g_start G) t 0%nat toks.
+Proof. exact GenProofsSound.generate_run_sound. Qed.
+
+Theorem generate_error_not_early : forall G eoi sp ff cf sf r fuel toks c i tok st e,
+  is_nonterminal G eoi = false -> all_productive G = true ->
+  generate G eoi sp ff cf sf = GenOk r ->
+  run (g_tables r) fuel toks = Rejected c i tok st e ->
+  exists suffix t, derives G (g_start G) t 0%nat (firstn i toks ++ suffix).
+Proof. exact GenProofsEarly.generate_error_not_early. Qed.
+
+Theorem generate_correct : forall G eoi sp ff cf sf r,
+  is_nonterminal G eoi = false -> all_productive G = true ->
+  generate G eoi sp ff cf sf = GenOk r -> gen_clean r = true ->
+  (forall toks t, ~ In eoi toks ->
+     ((exists fuel, run (g_tables r) fuel toks = Accepted t) <-> derives G (g_start G) t 0%nat toks)) /\
+  (forall toks t, derives G (g_start G) t 0%nat toks ->
+     exists n, forall fuel, (n <= fuel)%nat -> run (g_tables r) fuel toks = Accepted t) /\
+  (forall toks t1 t2, derives G (g_start G) t1 0%nat toks -> derives G (g_start G) t2 0%nat toks -> t1 = t2) /\
+  (forall fuel toks c i tok st e, run (g_tables r) fuel toks = Rejected c i tok st e ->
+     (exists suffix t, derives G (g_start G) t 0%nat (firstn i toks ++ suffix)) /\
+     (forall toks' t, firstn (S i) toks' = firstn (S i) toks -> ~ derives G (g_start G) t 0%nat toks')).
+Proof. exact GenProofsEarly.generate_correct. Qed.
+
+Theorem generate_correct_nonvacuous :
+  exists G eoi sp ff cf sf r fuel toks c i tok st e,
+    is_nonterminal G eoi = false /\ all_productive G = true /\
+    generate G eoi sp ff cf sf = GenOk r /\ gen_clean r = true /\
+    run (g_tables r) fuel toks = Rejected c i tok st e /\ (0 < i)%nat /\ (3 <= length (g_states r))%nat.
+Proof. exact GenProofsExample2.generate_correct_nonvacuous. Qed.
+
+Theorem items_fuel_monotone : forall G tab eoi cf cf' f f' r,
+  items G tab eoi cf f = Some r -> (cf <= cf')%nat -> (f <= f')%nat -> items G tab eoi cf' f' = Some r.
+Proof. exact GenProofsMono.items_fuel_monotone. Qed.
+
+Theorem generate_fuel_monotone : forall G eoi sp ff cf sf ff' cf' sf' r,
+  generate G eoi sp ff cf sf = GenOk r -> (ff <= ff')%nat -> (cf <= cf')%nat -> (sf <= sf')%nat ->
+  generate G eoi sp ff' cf' sf' = GenOk r.
+Proof. exact GenProofsMono.generate_fuel_monotone. Qed.
+
+Theorem generate_fuel_independent : forall G eoi sp ff cf sf ff' cf' sf' r r',
+  generate G eoi sp ff cf sf = GenOk r -> generate G eoi sp ff' cf' sf' = GenOk r' -> r = r'.
+Proof. exact GenProofsMono.generate_fuel_independent. Qed.
+
+Theorem items_complete_when_some : forall G ffuel tab eoi cfuel fuel states gotos,
+  first_table G ffuel = Some tab -> is_nonterminal G eoi = false ->
+  items G tab eoi cfuel fuel = Some (states, gotos) ->
+  (forall J, canon G eoi J -> exists k J', nth_error states k = Some J' /\ same_set J J') /\
+  (forall J', In J' states -> canon G eoi J') /\
+  distinct_states states /\
+  length gotos = length states.
+Proof. exact GenProofsMono.items_complete_when_some. Qed.
+
+Theorem gen_clean_iff_lr1 : forall G eoi sp ff cf sf r,
+  is_nonterminal G eoi = false -> generate G eoi sp ff cf sf = GenOk r ->
+  (gen_clean r = true <-> lr1_conflict_free G eoi).
+Proof. exact GenProofsFill.gen_clean_iff_lr1. Qed.
+
+Theorem generate_is_collection : forall G eoi sp ff cf sf r,
+  is_nonterminal G eoi = false -> generate G eoi sp ff cf sf = GenOk r ->
+  is_collection G eoi (g_states r) (g_gotos r).
+Proof. exact GenProofsFill.generate_is_collection. Qed.
+
+Theorem generate_verdict_order_independent_partial : forall G eoi sp ff cf sf r states' gotos',
+  is_nonterminal G eoi = false -> generate G eoi sp ff cf sf = GenOk r ->
+  is_collection G eoi states' gotos' ->
+  (gen_clean r = true <-> fill_clean G eoi states' gotos').
+Proof. exact GenProofsFill.generate_verdict_order_independent_partial. Qed.
+
+(* the same with the certificate built from item CORES (the form in which the harness dumps lr1.py's item sets and
+   evaluates it on lr1.py's own tables: LR/GenExec.lr1_certify) *)
+Theorem generate_pass_check_sound_cores : forall G eoi sp ff cf sf r,
+  is_nonterminal G eoi = false -> generate G eoi sp ff cf sf = GenOk r ->
+  check_sound G (g_tables r) (scert_of_icert G (icert_of (g_states r))) = true.
+Proof. exact GenProofsExec.generate_pass_check_sound_cores. Qed.
+
+(* only the verdict is order independent: WHICH kind of "not clean" (a Conflict or the Accept clash = lr1.py's
+   AssertionError) is reported depends on the order of the items inside the accepting state (finding
+   lr1-assert-accept-reduce-clash, grammar S -> A | a; A -> S) *)
+Theorem not_clean_kind_order_dependent_refuted :
+  exists G eoi grow it1 it2,
+    f_conf (fill_state G eoi grow [it1; it2]) <> [] /\ f_clash (fill_state G eoi grow [it1; it2]) = false /\
+    f_conf (fill_state G eoi grow [it2; it1]) = [] /\ f_clash (fill_state G eoi grow [it2; it1]) = true.
+Proof. exact GenProofsExample2.not_clean_kind_order_dependent. Qed.
